@@ -1133,7 +1133,23 @@ func (ev *symEval) evalValue(fr *symFrame, st *symState, v ssa.Value) SV {
 		d := a.Desc + ".(" + typeStr(x.AssertedType) + ")"
 		if x.CommaOk {
 			r := defaultFor(x.AssertedType, d)
-			return SV{K: "tuple", Desc: d, Elems: []SV{r, {K: "bool", Desc: "ok(" + d + ")"}}}
+			okv := SV{K: "bool", Desc: "ok(" + d + ")"}
+			switch {
+			case a.K == "ref" && a.Known && a.Nil:
+				okv = symBool(false)
+			case a.DynT != nil:
+				// the dynamic type is known: the assertion is decided
+				if iface, isI := x.AssertedType.Underlying().(*types.Interface); isI {
+					okv = symBool(types.Implements(a.DynT, iface))
+				} else {
+					okv = symBool(types.Identical(a.DynT, x.AssertedType))
+				}
+				if okv.B {
+					r = a
+					r.Desc = a.Desc
+				}
+			}
+			return SV{K: "tuple", Desc: d, Elems: []SV{r, okv}}
 		}
 		if _, isIface := x.AssertedType.Underlying().(*types.Interface); !isIface {
 			switch {
